@@ -4,4 +4,9 @@ pub assume_specification<T: Clone> [<[T]>::fill] (s: &mut [T], v: T)
 // rule R16: Vec<T> == Vec<T> for T = usize (std: element-wise comparison)
 #[verifier::external_body]
 pub fn vec_eq(a: &Vec<usize>, b: &Vec<usize>) -> (r: bool) ensures r == (a@ == b@) { a == b }
+// rule R18: core::cmp::max / min at type usize
+#[verifier::external_body]
+pub fn usize_max(a: usize, b: usize) -> (r: usize) ensures r == (if a >= b { a } else { b }) { core::cmp::max(a, b) }
+#[verifier::external_body]
+pub fn usize_min(a: usize, b: usize) -> (r: usize) ensures r == (if a <= b { a } else { b }) { core::cmp::min(a, b) }
 // ===== end prelude/std_assumed.rs =====
